@@ -13,10 +13,10 @@ import (
 type Value interface{}
 
 type (
-	VBV    struct{ T *Term }
-	VBool  struct{ T *Term }
-	VStr   struct{ T *Term }
-	VPtr   struct {
+	VBV   struct{ T *Term }
+	VBool struct{ T *Term }
+	VStr  struct{ T *Term }
+	VPtr  struct {
 		T  *Term   // object id (BV64); nil when LV != nil
 		LV *LValue // interior pointer (executor-level only)
 	}
@@ -27,6 +27,7 @@ type (
 	VStruct struct{ F []Value }
 	VArr    struct {
 		Leaves []*Term // per leaf of the element type: Array(BV64 -> leaf sort)
+		N      int64   // array length
 	}
 	VFunc struct {
 		Fn    *ssa.Function
@@ -62,13 +63,17 @@ func typeKey(t types.Type) string {
 			f := x.Field(i)
 			sb.WriteString(f.Name())
 			sb.WriteByte(' ')
-			sb.WriteString(types.TypeString(f.Type(), nil))
+			sb.WriteString(strings.NewReplacer("byte", "uint8", "rune", "int32").Replace(types.TypeString(f.Type(), nil)))
 			sb.WriteByte(';')
 		}
 		sb.WriteString("}")
 		return sb.String()
 	}
-	return types.TypeString(u, nil)
+	if b, ok := u.(*types.Basic); ok {
+		// byte/uint8 and rune/int32 are the same type
+		return types.Typ[b.Kind()].Name()
+	}
+	return strings.NewReplacer("byte", "uint8", "rune", "int32").Replace(types.TypeString(u, nil))
 }
 
 func intWidth(b *types.Basic) (int, bool) { // width, signed
@@ -284,7 +289,7 @@ func fromLeaves1(t types.Type, ls []*Term) (Value, []*Term) {
 		return VTuple{fs}, ls
 	case *types.Array:
 		n := len(leafSorts(x.Elem()))
-		return VArr{Leaves: ls[:n]}, ls[n:]
+		return VArr{Leaves: ls[:n], N: x.Len()}, ls[n:]
 	}
 	panic(unsupported("fromLeaves: " + t.String()))
 }
@@ -414,7 +419,7 @@ func iteValue(c *Term, a, b Value) Value {
 		for i := range ls {
 			ls[i] = Ite(c, x.Leaves[i], y.Leaves[i])
 		}
-		return VArr{ls}
+		return VArr{ls, x.N}
 	}
 	panic(fmt.Sprintf("iteValue: %T / %T", a, b))
 }
@@ -492,19 +497,19 @@ func StrLen(s *Term) *Term {
 			return C64(int64(len(lit)))
 		}
 	}
-	if s.Op == "app" && s.Name == "str.concat" {
+	if s.Op == "app" && s.Name == "gostr.concat" {
 		return Add(StrLen(s.Args[0]), StrLen(s.Args[1]))
 	}
-	if s.Op == "app" && s.Name == "str.sub" {
+	if s.Op == "app" && s.Name == "gostr.sub" {
 		return Sub(s.Args[2], s.Args[1])
 	}
-	if s.Op == "app" && s.Name == "str.frombytes" {
+	if s.Op == "app" && s.Name == "gostr.frombytes" {
 		return s.Args[2]
 	}
 	if s.Op == "ite" {
 		return Ite(s.Args[0], StrLen(s.Args[1]), StrLen(s.Args[2]))
 	}
-	return App("str.len", BV64, s)
+	return App("gostr.len", BV64, s)
 }
 
 func litOf(s *Term) (string, bool) {
@@ -516,17 +521,17 @@ func litOf(s *Term) (string, bool) {
 	return "", false
 }
 
-func StrRow(s *Term) *Term { return App("str.row", ArrSort(BV64, BV8), s) }
+func StrRow(s *Term) *Term { return App("gostr.row", ArrSort(BV64, BV8), s) }
 
 func StrAt(s, i *Term) *Term {
 	if lit, ok := litOf(s); ok && i.IsConst() && i.Val < uint64(len(lit)) {
 		return Const(uint64(lit[i.Val]), 8)
 	}
-	if s.Op == "app" && s.Name == "str.frombytes" {
+	if s.Op == "app" && s.Name == "gostr.frombytes" {
 		// str.frombytes(row, off, len)
 		return Select(s.Args[0], Add(s.Args[1], i))
 	}
-	if s.Op == "app" && s.Name == "str.sub" {
+	if s.Op == "app" && s.Name == "gostr.sub" {
 		return StrAt(s.Args[0], Add(s.Args[1], i))
 	}
 	return Select(StrRow(s), i)
@@ -544,7 +549,7 @@ func StrConcat(a, b *Term) *Term {
 	if okb && lb == "" {
 		return a
 	}
-	return App("str.concat", StrSort, a, b)
+	return App("gostr.concat", StrSort, a, b)
 }
 
 // s[lo:hi]
@@ -555,12 +560,12 @@ func StrSub(s, lo, hi *Term) *Term {
 	if lo.IsConst() && lo.Val == 0 && hi == StrLen(s) {
 		return s
 	}
-	return App("str.sub", StrSort, s, lo, hi)
+	return App("gostr.sub", StrSort, s, lo, hi)
 }
 
 // string(bytes): content of row[off:off+len]
 func StrFromBytes(row, off, ln *Term) *Term {
-	return App("str.frombytes", StrSort, row, off, ln)
+	return App("gostr.frombytes", StrSort, row, off, ln)
 }
 
 // axioms about string operations occurring in the given term set
@@ -586,7 +591,7 @@ func stringAxioms(order []*Term) []*Term {
 	}
 	for i, l := range usedLits {
 		t := strLits[l]
-		ax = append(ax, Eq(App("str.len", BV64, t), C64(int64(len(l)))))
+		ax = append(ax, Eq(App("gostr.len", BV64, t), C64(int64(len(l)))))
 		for j := 0; j < len(l) && j < 64; j++ {
 			ax = append(ax, Eq(Select(StrRow(t), C64(int64(j))), Const(uint64(l[j]), 8)))
 		}
@@ -599,7 +604,7 @@ func stringAxioms(order []*Term) []*Term {
 	lo := Bound("lo", BV64)
 	hi := Bound("hi", BV64)
 	i := Bound("i", BV64)
-	slen := func(x *Term) *Term { return App("str.len", BV64, x) }
+	slen := func(x *Term) *Term { return App("gostr.len", BV64, x) }
 	sat := func(x, k *Term) *Term { return Select(StrRow(x), k) }
 	bound := C64(int64(SizeBound))
 	ax = append(ax, Forall([]*Term{s}, And(SLe(C64(0), slen(s)), SLe(slen(s), bound)), []*Term{slen(s)}))
@@ -609,24 +614,24 @@ func stringAxioms(order []*Term) []*Term {
 			uses[t.Name] = true
 		}
 	}
-	if uses["str.concat"] {
-		cc := App("str.concat", StrSort, s, u)
+	if uses["gostr.concat"] {
+		cc := App("gostr.concat", StrSort, s, u)
 		ax = append(ax, Forall([]*Term{s, u}, Eq(slen(cc), Add(slen(s), slen(u))), []*Term{cc}))
 		ax = append(ax, Forall([]*Term{s, u, i}, Implies(And(SLe(C64(0), i), SLt(i, slen(s))), Eq(sat(cc, i), sat(s, i))), []*Term{sat(cc, i)}))
 		ax = append(ax, Forall([]*Term{s, u, i}, Implies(And(SLe(slen(s), i), SLt(i, Add(slen(s), slen(u)))), Eq(sat(cc, i), sat(u, Sub(i, slen(s))))), []*Term{sat(cc, i)}))
 		// prefix/suffix recovery
-		ax = append(ax, Forall([]*Term{s, u}, Eq(App("str.sub", StrSort, cc, slen(s), Add(slen(s), slen(u))), u), []*Term{cc}))
-		ax = append(ax, Forall([]*Term{s, u}, Eq(App("str.sub", StrSort, cc, C64(0), slen(s)), s), []*Term{cc}))
+		ax = append(ax, Forall([]*Term{s, u}, Eq(App("gostr.sub", StrSort, cc, slen(s), Add(slen(s), slen(u))), u), []*Term{cc}))
+		ax = append(ax, Forall([]*Term{s, u}, Eq(App("gostr.sub", StrSort, cc, C64(0), slen(s)), s), []*Term{cc}))
 	}
-	if uses["str.sub"] {
-		sb := App("str.sub", StrSort, s, lo, hi)
+	if uses["gostr.sub"] {
+		sb := App("gostr.sub", StrSort, s, lo, hi)
 		ax = append(ax, Forall([]*Term{s, lo, hi}, Implies(And(SLe(C64(0), lo), SLe(lo, hi), SLe(hi, slen(s))), Eq(slen(sb), Sub(hi, lo))), []*Term{sb}))
 		ax = append(ax, Forall([]*Term{s, lo, hi, i}, Implies(And(SLe(C64(0), lo), SLe(lo, hi), SLe(hi, slen(s)), SLe(C64(0), i), SLt(i, Sub(hi, lo))), Eq(sat(sb, i), sat(s, Add(lo, i)))), []*Term{sat(sb, i)}))
-		ax = append(ax, Forall([]*Term{s}, Eq(App("str.sub", StrSort, s, C64(0), slen(s)), s), []*Term{slen(s)}))
+		ax = append(ax, Forall([]*Term{s}, Eq(App("gostr.sub", StrSort, s, C64(0), slen(s)), s), []*Term{slen(s)}))
 	}
-	if uses["str.frombytes"] {
+	if uses["gostr.frombytes"] {
 		row := Bound("row", ArrSort(BV64, BV8))
-		fb := App("str.frombytes", StrSort, row, lo, hi)
+		fb := App("gostr.frombytes", StrSort, row, lo, hi)
 		ax = append(ax, Forall([]*Term{row, lo, hi}, Implies(And(SLe(C64(0), hi), SLe(hi, bound)), Eq(slen(fb), hi)), []*Term{fb}))
 		ax = append(ax, Forall([]*Term{row, lo, hi, i}, Implies(And(SLe(C64(0), i), SLt(i, hi)), Eq(sat(fb, i), Select(row, Add(lo, i)))), []*Term{sat(fb, i)}))
 	}
